@@ -7,7 +7,33 @@ import shutil
 import vlib
 
 
+SPECDIR = os.path.join(vlib.VERIF, 'spec', 'ingest')
+
+
+def column_fill_model():
+    """spec/ingest/ColumnFill.tla: ProcessRequest at column grain over several sub-services. The handle scope of the code
+    ("call") satisfies the block invariants; a handle that outlives the call ("service") must be refuted - non-vacuity of
+    the schedule class the driver's phase "subsvc" realises (two sub-services inside ProcessRequest at once)."""
+    out = {}
+    res = vlib.tlc(SPECDIR, 'MC_ColumnFill.tla', 'MC_ColumnFill_call.cfg', timeout=600, workers=4)
+    try:
+        if res['violated'] or 'Model checking completed. No error' not in res['out']:
+            raise vlib.Infra('ColumnFill.tla (HandleScope = "call") failed:\n' + res['out'][-2000:])
+        out['states'], out['transitions'] = res.get('distinct', 0), res.get('generated', 0)
+    finally:
+        vlib.tlc_cleanup(res)
+    mut = vlib.tlc(SPECDIR, 'MC_ColumnFill.tla', 'MC_ColumnFill_service.cfg', timeout=600, workers=4)
+    try:
+        if not re.search(r'Invariant (Rectangular|WholeRows|BlockIsItsRequests) is violated', mut['out']):
+            raise vlib.Infra('ColumnFill.tla with HandleScope = "service" violates nothing: the column-grain invariants are vacuous\n' + mut['out'][-1500:])
+        out['mutation_service_scope'] = 'refuted (as it must be)'
+    finally:
+        vlib.tlc_cleanup(mut)
+    return out
+
+
 def run_blocks(tier):
+    cf = column_fill_model()
     binp = vlib.go_build('cmd/c02blocks', 'c02blocks')
     sd = vlib.scratch('c02b')
     try:
@@ -29,6 +55,13 @@ def run_blocks(tier):
         stats = {k: out[k] for k in ('requests', 'acked', 'blocks', 'rows', 'signature_counts')}
         stats['request_classes'] = len(out.get('classes') or {})
         stats['acked_by_protocol'] = out.get('acked_by_protocol')
+        if out.get('subsvc_infra'):
+            raise vlib.Infra('c02blocks subsvc phase: ' + '; '.join(out['subsvc_infra'][:3]))
+        ss = out.get('subsvc') or {}
+        if not ss.get('Blocks') or not ss.get('Rows') or ss.get('Acked', 0) == 0:
+            raise vlib.Infra('c02blocks subsvc phase ran nothing: %r' % ss)
+        stats['subservice_contention'] = ss
+        stats['column_fill_model'] = cf
         return {'violations': viols, 'stats': stats}
     finally:
         shutil.rmtree(sd, ignore_errors=True)
